@@ -61,6 +61,11 @@ Theorem C32_notify_only_when_unregistered : forall s c t s', reachable s ->
 Proof. exact notify_only_when_unregistered. Qed.
 Print Assumptions C32_notify_only_when_unregistered.
 
+(** The disconnect callback runs at most once for every connection. *)
+Theorem C32_notified_at_most_once : forall s c, reachable s -> (cnt c s <= 1)%nat.
+Proof. exact notified_at_most_once. Qed.
+Print Assumptions C32_notified_at_most_once.
+
 (** non-vacuity of the stale-teardown theorem *)
 Theorem C32_stale_teardown_nonvacuous :
   exists s x s', reachable s /\ get s 0 = Some x /\ lookup (c_peer x) (reg s) = Some 1 /\
